@@ -403,6 +403,9 @@ def r5_push_advance(c, facts):
 
 
 def run(c, facts):
+    import c16
+    R6 = c.rule('C11.R6', 'SAME-TEXT: a span handed to the editor is measured in the text of its own module (shared with C16.R5)')
+    c.shared(R6, c16.r5_same_text, 'C16.R5', facts)
     c.run(r5_push_advance, facts)
     c.run(r1_lex_range, facts)
     c.run(r2_no_discard, facts)
